@@ -353,6 +353,12 @@ func init() {
 	ds("underscore-tag", "$_t1$x$_t1$", "x")
 	ds("param-inside", "$$ $1 $$", " $1 ")
 	ds("comment-inside", "$$a--b/*c$$", "a--b/*c")
+	// near-miss closing tags inside the body: other letter case, a prefix of the tag, a longer tag
+	ds("other-case-tag-inside", "$Q$a$q$b$Q$", "a$q$b")
+	ds("other-case-tag-inside-lower", "$q$a$Q$b$q$", "a$Q$b")
+	ds("prefix-tag-inside", "$ab$x$a$y$ab$", "x$a$y")
+	ds("longer-tag-inside", "$a$x$ab$y$a$", "x$ab$y")
+	ds("empty-tag-inside", "$t$x$$y$t$", "x$$y")
 	// double-quoted identifiers
 	qi := func(name, text, value string) { lx("qident:"+name, "qident", text, value, kQIdent) }
 	qi("plain", `"x"`, "x")
